@@ -250,12 +250,15 @@ func fidelityReal(sc *cliScenario, x *cliExec, root, bin string) (bool, string, 
 			realFiles["/tmp-leftover"] = nil
 		}
 	}
+	// what a run that died left beside the entries has a random suffix on the
+	// real disk and a counter in the simulator
+	tmpName := regexp.MustCompile(`\.tmp-[0-9]+$`)
 	var a, b []string
 	for p, d := range realFiles {
-		a = append(a, fmt.Sprintf("%s:%d:%x", p, len(d), sha(d)))
+		a = append(a, fmt.Sprintf("%s:%d:%x", tmpName.ReplaceAllString(p, ".tmp-N"), len(d), sha(d)))
 	}
 	for p, d := range simFiles {
-		b = append(b, fmt.Sprintf("%s:%d:%x", p, len(d), sha(d)))
+		b = append(b, fmt.Sprintf("%s:%d:%x", tmpName.ReplaceAllString(p, ".tmp-N"), len(d), sha(d)))
 	}
 	sort.Strings(a)
 	sort.Strings(b)
@@ -347,6 +350,11 @@ func simNorm(trace []simos.OpRec) []normOp {
 			if o.Res == "ok" || o.Res == "0" || o.Res == "" {
 				n = "ok"
 			}
+		case "rename":
+			n = "err"
+			if strings.HasPrefix(o.Res, "->") || o.Res == "ok" {
+				n = "ok"
+			}
 		case "mkdirall", "stat", "readdir", "usercachedir", "tempdir":
 			continue
 		}
@@ -423,6 +431,8 @@ func realNorm(path, root string) ([]normOp, error) {
 			out = append(out, normOp{"seek", a, ret})
 		case "close":
 			out = append(out, normOp{"close", a, okErr})
+		case "rename", "renameat", "renameat2":
+			out = append(out, normOp{"rename", a, okErr})
 		case "unlinkat":
 			if strings.Contains(args, "AT_REMOVEDIR") {
 				continue // os.Remove falls back to rmdir after a failed unlink
@@ -496,7 +506,7 @@ func traceCheckMain(args []string) int {
 			return 2
 		}
 	}
-	fmt.Printf("selftest tracecheck: %d histories, %d invocations: the %d system calls the real binary made on cache and temp files (openat, read, write, lseek, close, unlinkat) are the simulator's operations, in the same order with the same byte counts and offsets\n", n, steps, calls)
+	fmt.Printf("selftest tracecheck: %d histories, %d invocations: the %d system calls the real binary made on cache and temp files (openat, read, write, lseek, close, unlinkat, rename) are the simulator's operations, in the same order with the same byte counts and offsets\n", n, steps, calls)
 	return 0
 }
 
@@ -525,7 +535,7 @@ func traceReal(sc *cliScenario, x *cliExec, root, bin string) (bool, string, int
 			info := x.steps[si]
 			si++
 			raw := rawArgv(st.Run.Argv)
-			argv := []string{"-f", "-y", "-e", "trace=openat,read,write,lseek,close,unlinkat,copy_file_range,sendfile", "-o", root + "/strace.out", bin}
+			argv := []string{"-f", "-y", "-e", "trace=openat,read,write,lseek,close,unlinkat,rename,renameat,renameat2,copy_file_range,sendfile", "-o", root + "/strace.out", bin}
 			for _, a := range raw {
 				argv = append(argv, mapPath(root, a))
 			}
